@@ -435,7 +435,7 @@ fn c23_fza_o6() {
     c23_body(6)
 }
 
-// @h props=C02,C01 tier=quick geom=4 tgeom= panics=C09 mem=C18
+// @h props=C02,C18 tier=quick geom=4 tgeom= panics=C09 mem=C18
 #[kani::proof]
 #[kani::unwind(10)]
 fn b_toggle_o0() {
